@@ -802,7 +802,66 @@ theorem strategyRet_needsStructure {s : Strategy} {r : Reply}
     · simpa [Strategy.usesStructure] using ht
   | union m => exact unionDispatch_needsStructure h
   | streamBytes => simp [strategyRet, RetKind.needsStructure] at h
+  | streamNdjson => simp [strategyRet, RetKind.needsStructure] at h
   | streamSse => simp [strategyRet, RetKind.needsStructure] at h
+
+/-! ## the return of the primary arm: NDJSON streams (repaired F43) -/
+
+theorem strategyMedia_mem {c : List Media} {m : Media} (h : strategyMedia c = some m) : m ∈ c := by
+  unfold strategyMedia at h
+  split at h
+  · next x hx => cases h; exact List.mem_of_find?_eq_some hx
+  · split at h
+    · next x hx => cases h; exact List.mem_of_find?_eq_some hx
+    · exact List.mem_of_mem_head? h
+
+theorem strategyMedia_of_ne_nil {c : List Media} (h : c ≠ []) : ∃ m, strategyMedia c = some m := by
+  unfold strategyMedia
+  split
+  · exact ⟨_, rfl⟩
+  · split
+    · exact ⟨_, rfl⟩
+    · cases c with
+      | nil => exact absurd rfl h
+      | cons a _ => exact ⟨a, rfl⟩
+
+theorem shapeTy_eq_bytes {s : Shape} : shapeTy s = .bytes ↔ s = .binary := by
+  cases s <;> simp [shapeTy]
+
+theorem respStream_of_ndjson {x : Resp} (h : x.content.any (fun m => lowerAscii m.mt = mtNdjson) = true) :
+    respStream x = true := by
+  unfold respStream
+  rw [Bool.or_eq_true]
+  left
+  rw [List.any_eq_true] at h ⊢
+  obtain ⟨m, hm, hmt⟩ := h
+  refine ⟨m, hm, ?_⟩
+  have hmt' : lowerAscii m.mt = mtNdjson := by simpa using hmt
+  rw [hmt']
+  decide
+
+/-- A primary response that declares `application/x-ndjson`, no event stream, no binary media type and whose schema
+    is not binary is iterated with `iter_ndjson`. -/
+theorem resolveStrategy_ndjson {rs : List Resp} {p : Resp} (hp : primaryA rs = some p)
+    (hnd : p.content.any (fun m => lowerAscii m.mt = mtNdjson) = true)
+    (hev : p.content.any (fun m => isInfix "event-stream".toList m.mt) = false)
+    (hbin : p.content.any (fun m => isBinaryCt m.mt) = false)
+    (hsh : ∀ m, strategyMedia p.content = some m → m.shape ≠ .binary) :
+    resolveStrategy rs = .streamNdjson := by
+  have hne : p.content ≠ [] := by
+    intro h; rw [h] at hnd; simp at hnd
+  have hemp : p.content.isEmpty = false := by
+    cases hc : p.content with
+    | nil => exact absurd hc hne
+    | cons _ _ => rfl
+  obtain ⟨m, hm⟩ := strategyMedia_of_ne_nil hne
+  have hnb : ¬ shapeTy m.shape = .bytes := fun h => hsh m hm (shapeTy_eq_bytes.mp h)
+  have hj : streamJson p.content = .streamNdjson := by
+    unfold streamJson isNdjsonStream
+    rw [hev, hnd]
+    rfl
+  unfold resolveStrategy
+  simp only [hp, hemp, respStream_of_ndjson hnd, hbin, hev, hm, hnb, hj, if_true, if_false, Bool.false_eq_true]
 
 theorem select_retStrategy {rs : List Resp} {s : Nat} (h : selectAction rs s = .retStrategy) :
     (processedPrimary rs).isSome = true ∨ defaultAction rs = .retStrategy := by
